@@ -317,10 +317,10 @@ def part_d(ctx, rng, n):
 
 def run(ctx):
     rng = ctx.rng
-    part_a(ctx, rng, ctx.n(600, 12000))
-    part_b(ctx, rng, ctx.n(300, 8000))
-    part_c(ctx, rng, ctx.n(400, 8000))
-    part_d(ctx, rng, ctx.n(300, 6000))
+    part_a(ctx, rng, ctx.n(600, 40000))
+    part_b(ctx, rng, ctx.n(300, 25000))
+    part_c(ctx, rng, ctx.n(400, 25000))
+    part_d(ctx, rng, ctx.n(300, 20000))
     ctx.traces = ctx.evaluations
 
 
